@@ -104,7 +104,7 @@ Fixpoint pat_ok (p : pat) : bool :=
    element written `ops: pattern` in a tuple / variant pattern has the index of its position
    as the root of `ops`. *)
 Definition root_at (o : fop) (pos : N) : bool :=
-  match root_field_name o with Some (FIndex i) => N.eqb i pos | _ => false end.
+  match root_field_name o with Some (FIndex i _) => N.eqb i pos | _ => false end.
 
 Section ElemsOk.
   Variable f : pat -> bool.
@@ -326,7 +326,7 @@ Section ParserP.
     sbind a. sbind a0. sbind_.
     eapply spec_bind; [apply spec_p_field_name|]. intros name Hname.
     eapply spec_bind; [apply spec_p_ops_loop|]. intros more Hmore.
-    set (nm := match name with FIdent s nsp => ONamed s nsp a | FIndex n => OUnnamed n a end).
+    set (nm := match name with FIdent s nsp => ONamed s nsp a | FIndex n _ => OUnnamed n a end).
     set (pre := if Nat.eqb (count_stars a0) 0 then [] else [ODeref (count_stars a0) a]).
     assert (Hpre : pre = [] \/ exists n s, pre = [ODeref n s]).
     { unfold pre. destruct (Nat.eqb (count_stars a0) 0); [left; reflexivity|right; eauto]. }
